@@ -592,7 +592,9 @@ def walk_section(rng, thorough, rundir, model_run, res, count):
                 sib = [n2 for n2, k2 in ents if k2 == "f" and n2 != nm]
                 os.symlink(rng.pick(sib) if sib and rng.coin(1, 2) else targets["file"], p)
             elif k == "x":
-                os.symlink(rng.pick([targets["missing"], targets["dir"], targets["fifo"], "no-such-sibling"]), p)
+                # … and links that cannot be RESOLVED at all: to itself (ELOOP), through a regular file (ENOTDIR), to a name longer than
+                # NAME_MAX (ENAMETOOLONG) — not files, not errors of the walk either (seed C14-N made them abort the scan)
+                os.symlink(rng.pick([targets["missing"], targets["dir"], targets["fifo"], "no-such-sibling", nm, targets["file"] + "/below-a-file", "n" * 300]), p)
             elif k == "o":
                 os.mkfifo(p)
             if isinstance(k, list):
